@@ -331,7 +331,7 @@ def reduced_witness(done, seed):
                 elif nm == 'regimen':
                     r.set_dosing_regimen(dose=1.0, start=0.0, duration=0.5, period=2.0, num=3)
                 elif nm == 'rename':
-                    r.set_parameter_names({r.parameters()[-1]: 'Q%d' % len(r.parameters())})
+                    r.set_parameter_names({r.parameters()[-1]: 'a much longer published name for the parameter Q%d' % len(r.parameters())})
                 elif nm == 'outputs':
                     r.set_outputs([r.outputs()[0]])
                 elif nm == 'simulate':
@@ -363,7 +363,7 @@ def reduced_witness(done, seed):
             elif nm == 'rename':
                 free = [k for k in range(len(names)) if k not in fixed]
                 if free:
-                    names[free[-1]] = 'Q%d' % len(free)
+                    names[free[-1]] = 'a much longer published name for the parameter Q%d' % len(free)
         inner = base()
         if regimen:
             inner.set_dosing_regimen(dose=1.0, start=0.0, duration=0.5, period=2.0, num=3)
@@ -397,6 +397,13 @@ def reduced_witness(done, seed):
             u, v = np.asarray(u, dtype=float), np.asarray(v, dtype=float)
             if u.shape != v.shape or not np.allclose(u, v, rtol=tol, atol=tol * 1e-2):
                 return dict(case, what='simulated %s differ from those of a fresh model with the net configuration (shapes %s / %s)' % (what, u.shape, v.shape), expected=v.tolist(), observed=u.tolist())
+        # a copy behaves like its original at the moment of copying
+        c_ = r.copy()
+        cc = c_.simulate(x, times)
+        cc = cc if isinstance(cc, tuple) else (cc,)
+        if list(c_.parameters()) != list(r.parameters()) or len(cc) != len(aa) or any(np.shape(u_) != np.shape(v_) or not np.allclose(np.asarray(u_, dtype=float), np.asarray(v_, dtype=float), rtol=2e-3, atol=1e-6) for u_, v_ in zip(cc, aa)):
+            return dict(case, what='the copy of the reduced model simulates %s, its original %s (outputs%s)' % ([np.shape(u_) for u_ in cc], [np.shape(v_) for v_ in aa], ' and sensitivities' if len(aa) > 1 else ''),
+                        expected=[list(np.shape(v_)) for v_ in aa], observed=[list(np.shape(u_)) for u_ in cc])
     except Exception as ex:
         return {'what': 'native replay of %s raises %r' % (list(done), ex), 'history': list(done), 'expected': 'values', 'observed': repr(ex)}
     return None
